@@ -46,12 +46,13 @@ struct Chain {
     init: Value,
     steps: Vec<Value>,
     handles: Vec<Option<Handle>>,
+    readers: Vec<Option<(Box<dyn ReadSeek>, String)>>,
 }
 impl Chain {
     fn new(route_enum: bool) -> Chain {
         let fs = Fs::new(route_enum);
         let cur = fs.project();
-        Chain { curkey: to_ascii_json(&cur), init: cur.clone(), cur, fs, steps: vec![], handles: vec![None, None] }
+        Chain { curkey: to_ascii_json(&cur), init: cur.clone(), cur, fs, steps: vec![], handles: vec![None, None], readers: vec![None, None] }
     }
     fn log(&mut self, c: Value, r: Value) {
         let post = self.fs.project();
@@ -99,6 +100,47 @@ impl Chain {
                     }
                 }
                 self.log(call_b("h_open", path, "", slot as u32, 0, "", if append { "a" } else { "w" }), r);
+            },
+            // read handles: opening, reading and dropping one never changes anything, whatever happened to the file meanwhile
+            "hr_open" => {
+                if self.readers[slot].is_some() {
+                    return;
+                }
+                let r = gres(|| {
+                    let h = match &self.fs {
+                        Fs::Direct(m) => m.read(path),
+                        Fs::Enum(v) => v.read(path),
+                    };
+                    match h {
+                        Ok(rd) => {
+                            self.readers[slot] = Some((rd, path.to_string()));
+                            r_ok(json!([]))
+                        },
+                        Err(e) => r_err(&err_kind(&e)),
+                    }
+                });
+                self.log(call_b("hr_open", path, "", slot as u32, 0, "", ""), r);
+            },
+            "hr_read" => {
+                if let Some((rd, p)) = self.readers[slot].as_mut() {
+                    let mut buf = vec![];
+                    let r = match guard(|| rd.read_to_end(&mut buf)) {
+                        Ok(Ok(_)) => r_ok(json!([])),
+                        Ok(Err(e)) => r_err(&format!("Io::{:?}", e.kind())),
+                        Err(m) => r_panic(&m),
+                    };
+                    let p = p.clone();
+                    self.log(call_b("hr_read", &p, "", slot as u32, 0, "", ""), r);
+                }
+            },
+            "hr_drop" => {
+                if let Some((rd, p)) = self.readers[slot].take() {
+                    let r = match guard(move || drop(rd)) {
+                        Ok(()) => r_ok(json!([])),
+                        Err(m) => r_panic(&m),
+                    };
+                    self.log(call_b("hr_drop", &p, "", slot as u32, 0, "", ""), r);
+                }
             },
             "h_write" => {
                 if let Some(h) = self.handles[slot].as_mut() {
@@ -192,12 +234,25 @@ impl Chain {
         let pr = Progress { f: None };
         for slot in 0..self.handles.len() {
             self.handle_op(&pr, 0, "h_drop", slot, "", &[], false);
+            self.handle_op(&pr, 0, "hr_drop", slot, "", &[], false);
         }
         out.rec(&json!({"k": "h", "be": "memfs", "route": route, "init": self.init, "steps": self.steps}));
     }
 }
 
 /// another spelling of the absolute clean path `p` for a filesystem whose cwd is `cwd`
+/// the spelling of the absolute clean path `p` relative to `cwd`
+fn rel_spelling(p: &str, cwd: &[String]) -> String {
+    let comps: Vec<&str> = p.split('/').filter(|x| !x.is_empty()).collect();
+    let mut n = 0;
+    while n < comps.len() && n < cwd.len() && comps[n] == cwd[n] {
+        n += 1;
+    }
+    let mut parts: Vec<String> = (0..cwd.len() - n).map(|_| "..".to_string()).collect();
+    parts.extend(comps[n..].iter().map(|x| x.to_string()));
+    if parts.is_empty() { ".".to_string() } else { parts.join("/") }
+}
+
 fn respell(rng: &mut StdRng, p: &str, cwd: &[String], home: &str) -> String {
     let comps: Vec<&str> = p.split('/').filter(|x| !x.is_empty()).collect();
     match rng.gen_range(0..9) {
@@ -353,7 +408,7 @@ fn main() {
                         23 => call_m("mkdir_m", &a, [0o700, 0o755, 0o511][rng.gen_range(0..3)], 0),
                         24 => call_m("mkfile_m", &a, [0o600, 0o644, 0o755][rng.gen_range(0..3)], 0),
                         25 => call_ls("write_lines", &a, &[["one", "two"].as_slice(), [""].as_slice(), ["", "x"].as_slice(), [].as_slice()][rng.gen_range(0..4)]),
-                        26 => call_ls("append_lines", &a, &[["3", "4"].as_slice(), [""].as_slice(), [].as_slice()][rng.gen_range(0..3)]),
+                        26 => call_ls("append_lines", &a, &[["3", "4"].as_slice(), [""].as_slice(), [].as_slice(), ["5", "", "6"].as_slice()][rng.gen_range(0..4)]),
                         27 => call_ls("append_line", &a, &[["solo"].as_slice(), [""].as_slice()][rng.gen_range(0..2)]),
                         28 => call_b("chmod_b", &a, "", 0, 0, ["f:u+x", "a:go-rwx", "d:a=rx,f:a=r", "a:a+w"][rng.gen_range(0..4)], ["s", "sR", "sF"][rng.gen_range(0..3)]),
                         29 => call_b("chown_b", &a, "", rng.gen_range(1..5), rng.gen_range(1..5), "", ["u", "g", "o", "oR", "uF"][rng.gen_range(0..5)]),
@@ -361,7 +416,14 @@ fn main() {
                             // a builder program: random sequence of builder calls, judged by its final options (last setter wins)
                             let n = rng.gen_range(1..5);
                             let modes = [0o755u32, 0o700, 0o640, 0o444];
-                            match rng.gen_range(0..3) {
+                            // half of the programs run "late": paths spelled relative to the cwd, the cwd moved away between the
+                            // creation of the builder and exec() (flag L, see ops::late_exec)
+                            // (chmod_b / chown_b only: they document path resolution at creation; copy_b keeps its arguments as given
+                            //  and both backends resolve them in exec())
+                            let kind = rng.gen_range(0..3);
+                            let late = kind < 2 && rng.gen_bool(0.5);
+                            let (a, b) = if late { (rel_spelling(&a0, &ch.cwd()), rel_spelling(&b0, &ch.cwd())) } else { (a.clone(), b.clone()) };
+                            let mut c = match kind {
                                 0 => {
                                     let steps: Vec<(u8, u32)> = (0..n).map(|_| { let k = rng.gen_range(1..10u8); (k, if k == 7 { rng.gen_range(0..3) } else { modes[rng.gen_range(0..4)] }) }).filter(|s| s.0 != 4).collect();
                                     call_seq("chmod_seq", &a, "", &steps)
@@ -374,13 +436,17 @@ fn main() {
                                     let steps: Vec<(u8, u32)> = (0..n).map(|_| (rng.gen_range(1..4u8), modes[rng.gen_range(0..4)])).collect();
                                     call_seq("copy_seq", &a, &b, &steps)
                                 },
+                            };
+                            if late {
+                                c["f"] = chars("L");
                             }
+                            c
                         },
                         30 | 31 | 32 | 33 => {
                             // handle operations on one of two slots (stale handles included: the path may be removed or
                             // replaced by something else while the handle is open)
                             let slot = rng.gen_range(0..2);
-                            let what = ["h_open", "h_write", "h_write", "h_flush", "h_drop"][rng.gen_range(0..5)];
+                            let what = ["h_open", "h_write", "h_write", "h_flush", "h_drop", "hr_open", "hr_read", "hr_drop"][rng.gen_range(0..8)];
                             let data = rand_data(&mut rng);
                             let append = rng.gen_bool(0.4);
                             ch.handle_op(&prog, id, what, slot, &a0, &data, append);
@@ -489,15 +555,15 @@ fn main() {
                         2 | 3 => call_d("append_all", a, &rand_data(&mut rng)),
                         4 => call_d("write_all", a, &big),
                         5 => call_d("append_all", a, &big[..200]),
-                        6 => call_ls("write_lines", a, &[["alpha", "beta"].as_slice(), ["\u{e9}t\u{e9}", "x y", "z"].as_slice(), ["single"].as_slice()][rng.gen_range(0..3)]),
-                        7 => call_ls("append_lines", a, &[["l1", "l2"].as_slice(), ["m"].as_slice()][rng.gen_range(0..2)]),
+                        6 => call_ls("write_lines", a, &[["alpha", "beta"].as_slice(), ["\u{e9}t\u{e9}", "x y", "z"].as_slice(), ["single"].as_slice(), ["p", "", "q"].as_slice()][rng.gen_range(0..4)]),
+                        7 => call_ls("append_lines", a, &[["l1", "l2"].as_slice(), ["m"].as_slice(), ["a", "", "b"].as_slice(), ["", "c"].as_slice()][rng.gen_range(0..4)]),
                         8 => call_ls("append_line", a, &[["solo"].as_slice(), ["\u{65e5}"].as_slice()][rng.gen_range(0..2)]),
                         9 | 10 => call("copy", a, b),
                         11 => call("move_p", a, b),
                         12 => call("remove", a, ""),
                         _ => {
                             let slot = rng.gen_range(0..2);
-                            let what = ["h_open", "h_write", "h_flush", "h_drop", "h_drop"][rng.gen_range(0..5)];
+                            let what = ["h_open", "h_write", "h_flush", "h_drop", "h_drop", "hr_open", "hr_read", "hr_drop"][rng.gen_range(0..8)];
                             let data = rand_data(&mut rng);
                             let append = rng.gen_bool(0.5);
                             ch.handle_op(&prog, id, what, slot, a, &data, append);
